@@ -49,7 +49,22 @@ func modeFuzz(c *Ctx) {
 						parsePanic = p
 					}
 				}()
-				params, _ = Parse(req)
+				var perr error
+				params, perr = Parse(req)
+				if perr != nil {
+					// what a handler does with a parse error: render it, directly and
+					// through fmt (fmt swallows a panicking Error method and prints it)
+					msg := perr.Error()
+					if s := fmt.Sprintf("%v", perr); strings.Contains(s, "%!v(PANIC=") || strings.Contains(msg, "%!") {
+						panic("error value panics when rendered: " + s)
+					}
+					var pe interface{ Unwrap() error }
+					if errors.As(perr, &pe) {
+						if inner := pe.Unwrap(); inner != nil {
+							_ = inner.Error()
+						}
+					}
+				}
 			}()
 			if params.IsValid() {
 				if b := params.FieldByName("Body"); b.IsValid() && (b.Type() == readerType || b.Type() == readCloserType) && !b.IsNil() {
@@ -97,8 +112,16 @@ func modeFuzz(c *Ctx) {
 			return []reflect.Value{reflect.ValueOf(http.Handler(http.HandlerFunc(func(w http.ResponseWriter, r *http.Request) { w.WriteHeader(204) })))}
 		}))
 	}
+	nserved := 0
 	serve := func(r *http.Request, what string) {
 		parsePanic = nil
+		nserved++
+		if nserved%5 == 0 && r.Body != nil && r.Body != http.NoBody {
+			// a body of unknown length (chunked transfer): net/http reports -1
+			r.ContentLength = -1
+			r.TransferEncoding = []string{"chunked"}
+			what += ", chunked"
+		}
 		w := newRec()
 		var pv any
 		func() {
